@@ -132,6 +132,27 @@ pub fn dispatch(t: &[&str]) -> String {
                 Err(_) => "err".into(),
             }
         }
+        // genbase <profile 0|1|2> <cm40 0|1>: the RPU generated for the empty config of that profile / CM version
+        // (second frame of a two-frame run: no scene cut), as a NAL
+        "genbase" => {
+            use dolby_vision::rpu::generate::{GenerateConfig, GenerateProfile, VideoShot};
+            use dolby_vision::rpu::vdr_dm_data::CmVersion;
+            let cfg = GenerateConfig {
+                cm_version: if t[2] == "1" { CmVersion::V40 } else { CmVersion::V29 },
+                profile: match t[1] { "0" => GenerateProfile::Profile5, "1" => GenerateProfile::Profile81, _ => GenerateProfile::Profile84 },
+                length: 2,
+                level6: None,
+                shots: vec![VideoShot { start: 0, duration: 2, ..Default::default() }],
+                ..Default::default()
+            };
+            match cfg.generate_rpu_list() {
+                Ok(l) => match l[1].write_hevc_unspec62_nalu() {
+                    Ok(d) => format!("ok {}", hex(&d)),
+                    Err(_) => "err".into(),
+                },
+                Err(_) => "err".into(),
+            }
+        }
         _ => panic!("unknown op {}", t[0]),
     }
 }
